@@ -26,6 +26,44 @@ add("crypto/pkcs7","pkcs7","Unpad","Unpad(data)",["0..10"],["0..40"])
 add("utils/encoding/utf16","utf16","DecodeUTF16LE","DecodeUTF16LE(data)",["0..7"],["0..12"])
 add("network/ldap","ldap","ParseSID","ParseSIDFromBytes(data)",["0..13","28","72"],["0..76"],lossy_fmt=True)
 
+
+# text-input entries use vString
+def addS(pkg, pkgname, name, body, q, t, **extra):
+    E.append(dict(pkg=pkg, pkgname=pkgname, name=name, body=body, q=q, t=t, imports=(), extra=extra, text=True))
+
+L="network/llmnr"
+add(L,"llmnr","DecodeMessage","DecodeMessage(data)",["0..13"],["0..14"],lossy_fmt=True)
+add(L,"llmnr","DecodeMessage_counts","vAssume(data[4] == 0 && data[6] == 0 && int(data[5]) == vParam(\"qd\") && int(data[7]) == vParam(\"an\"))\n\tDecodeMessage(data)",["14..20"],["14..26"],lossy_fmt=True,grid_extra={"qd":["0..2"],"an":["0..2"]})
+add(L,"llmnr","DecodeDomainName","DecodeDomainName(data, vParam(\"off\"))",["0..8"],["0..14"],lossy_fmt=True,grid_extra={"off":["0","1","3"]})
+add(L,"llmnr","DecodeQuestion","DecodeQuestion(data, 0)",["0..9"],["0..14"],lossy_fmt=True)
+add(L,"llmnr","DecodeResourceRecord","DecodeResourceRecord(data, 0)",["0..14"],["0..20"],lossy_fmt=True)
+N="network/netbios/nbtns"
+add(N,"nbtns","NBTNSPacket","p := &NBTNSPacket{}\n\tp.Unmarshal(data)",["0..16","50"],["0..60"],lossy_fmt=True)
+addS(N,"nbtns","FirstLevelDecode","FirstLevelDecode(data)",["0..6","32","33","35"],["0..40"],lossy_fmt=True)
+NT="network/smb/smb_v10/spnego/ntlm"
+add(NT,"ntlm","ParseChallengeMessage","ParseChallengeMessage(data)",["0..12","32","48","55"],["0..60"],lossy_fmt=True)
+add(NT,"ntlm","ParseTargetInfo","ParseTargetInfo(data)",["0..10"],["0..20"],lossy_fmt=True)
+K="windows/keycredential"
+add(K,"keycredentiallink","KeyCredential_FromBytes","kc := &KeyCredential{}\n\tkc.FromBytes(data)",["0..12"],["0..28"],lossy_fmt=True)
+add(K,"keycredentiallink","DNWithBinary_Parse","d := &DNWithBinary{}\n\td.Parse(data)",["0..10"],["0..16"],lossy_fmt=True)
+add(K+"/crypto","crypto","RSAKeyMaterial_FromBytes","rk := &RSAKeyMaterial{}\n\trk.FromBytes(data)",["0..12","24","28"],["0..40"],lossy_fmt=True)
+add(K+"/key","key","CustomKeyInformation_FromBytes","cki := &CustomKeyInformation{}\n\tvar ver KeyCredentialVersion\n\tver.FromBytes(vBytes(\"ver\", 4))\n\tcki.FromBytes(data, ver)",["0..14"],["0..20"],lossy_fmt=True)
+add(K+"/key","key","KeyCredentialVersion_FromBytes","var ver KeyCredentialVersion\n\tver.FromBytes(data)",["0..6"],["0..8"],lossy_fmt=True)
+add("crypto/gppp","gppp","GPPPDecryptBytes","GPPPDecryptBytes(data)",["0..3","15","17"],["0..17"],lossy_fmt=True)
+addS("crypto/gppp","gppp","GPPPDecryptBase64","GPPPDecryptBase64(data)",["0..6"],["0..10"],lossy_fmt=True)
+add("crypto/uuid","uuid","UUID_Unmarshal","var u UUID\n\tu.Unmarshal(data)",["0..3","15..17"],["0..20"],lossy_fmt=True)
+addS("crypto/uuid","uuid","UUID_FromString","var u UUID\n\tu.FromString(data)",["0..5"],["0..9"],lossy_fmt=True)
+G="windows/guid"
+add(G,"guid","FromRawBytes","g := NewGUID()\n\tg.FromRawBytes(data)",["0..4","15..17"],["0..20"],lossy_fmt=True)
+addS(G,"guid","FromString","FromString(data)",["0..3","32","36","38"],["0..40"],lossy_fmt=True)
+for f in "NDBPX":
+    addS(G,"guid","FromFormat"+f,"FromFormat"+f+"(data)",["0..5"],["0..9"],lossy_fmt=True)
+addS("windows/credentials","credentials","ParseLMNTHashes","ParseLMNTHashes(data)",["0..4","32","33","34"],["0..8","32..36","65","66"],lossy_fmt=True)
+I="network/ip"
+addS(I,"ip","NewIPv4FromString","NewIPv4FromString(data)",["0..8"],["0..12"],lossy_fmt=True)
+addS(I,"ip","NewIPv6FromString","NewIPv6FromString(data)",["0..8"],["0..12"],lossy_fmt=True)
+addS(I,"ip","NewTCPPortRangeFromString","NewTCPPortRangeFromString(data)",["0..8"],["0..12"],lossy_fmt=True)
+
 def emit():
     bypkg = collections.OrderedDict()
     for e in E:
@@ -39,10 +77,14 @@ def emit():
         if imps:
             src.append("import (\n"+"\n".join(f'\t"{i}"' for i in imps)+"\n)\n")
         for e in es:
-            src.append(f"func H_C07_{e['name']}() {{\n\tdata := vBytes(\"data\", vParam(\"n\"))\n\t{e['body']}\n\tvCover(\"end\")\n}}\n")
+            inp = 'vString' if e.get('text') else 'vBytes'
+            src.append(f"func H_C07_{e['name']}() {{\n\tdata := {inp}(\"data\", vParam(\"n\"))\n\t{e['body']}\n\tvCover(\"end\")\n}}\n")
             g={"pkg":pkg,"harness":"H_C07_"+e['name'],"grid":{"quick":{"n":e['q']},"thorough":{"n":e['t']}},
                "alloc_factor":16,"alloc_base":4096,"input_len_param":"n","bounds":"arbitrary byte strings of each length n in the grid"}
-            g.update(e['extra'])
+            ex=dict(e['extra'])
+            for k,v in ex.pop('grid_extra',{}).items():
+                g['grid']['quick'][k]=v; g['grid']['thorough'][k]=v
+            g.update(ex)
             groups.append(g)
         open(os.path.join(d,'c07_gen.go'),'w').write("\n".join(src))
     return dirs,groups
